@@ -82,12 +82,12 @@ CLAIMED['C09'] = dict(
    technique="Coq proof by invariant (parser stage total) + outcome-class correspondence on malformed SMILES + known-finding classifiers",
    design_ref="5/C09")
 CLAIMED['C10'] = dict(
-   text="Kernel-checked for ALL SMILES, ALL accepted tables, both values of strict and attribute (props/C10.v: C10_encoder_output_decodes_partial and its _checkable_ form; proofs/EncShape.v, EncTokens.v, EncAtoms.v, EncGood.v, EncDecodes.v): whatever string the encoder model returns tokenises back into the symbols it emitted, each is a symbol the derivation accepts (the atom symbol is read back as the very atom it was printed from), and decoder() returns - under three hypotheses that the harness evaluates on every input through the extracted enc_hyp: ring/branch suffixes 1..3 (= spans and lengths below 16^3, C10_suffix_partial), no atom with more explicit H than its capacity (guaranteed by strict=True in the implementation, but 'bond counts never negative' is not proved in the model: hence partial), input shorter than 10^4300 characters; C10_encoder_output_decodes_sized_partial needs sizes only (input <= 16^3 characters, output <= 16^3 symbols) besides the H/capacity hypothesis. Standardised: symbol <-> atom is a bijection on the atoms the encoder prints (C10_symbol_determines_atom, C10_printed_symbol_reads_back) and the named spelling pairs ([E+]/[E+1], [E++]/[E+2], [EH]/[EH1], [E]/[EH0], ...) are read as the same atom for EVERY element, with and without isotope (C10_standard_spellings). Ring/branch suffix 1..3 iff span-1 / length-1 < 16^3; Q symbols decode back. NOT proved: stability under re-encoding - decided per input: re-encoding the decoded SMILES must reproduce the string; every emitted symbol is also judged by the extracted symbol_in_grammar; atom-field extremes (every element, charges to +-100, H0-H9 and two-digit H under big tables, isotopes with leading zeros) and spans at the 16^k boundaries.",
+   text="Kernel-checked for ALL SMILES, ALL accepted tables, both values of strict and attribute (props/C10.v: C10_encoder_output_decodes_partial and its _checkable_ form; proofs/EncShape.v, EncTokens.v, EncAtoms.v, EncGood.v, EncDecodes.v): whatever string the encoder model returns tokenises back into the symbols it emitted, each is a symbol the derivation accepts (the atom symbol is read back as the very atom it was printed from), and decoder() returns - under three hypotheses that the harness evaluates on every input through the extracted enc_hyp: ring/branch suffixes 1..3 (= spans and lengths below 16^3, C10_suffix_partial), no atom with more explicit H than its capacity (guaranteed by strict=True in the implementation, but 'bond counts never negative' is not proved in the model: hence partial), input shorter than 10^4300 characters; C10_encoder_output_decodes_sized_partial needs sizes only (input <= 16^3 characters, output <= 16^3 symbols) besides the H/capacity hypothesis. Standardised: symbol <-> atom is a bijection on the atoms the encoder prints (C10_symbol_determines_atom, C10_printed_symbol_reads_back) and the named spelling pairs ([E+]/[E+1], [E++]/[E+2], [EH]/[EH1], [E]/[EH0], ...) are read as the same atom and encode to the same SELFIES string under every table, for EVERY element, with and without isotope (C10_standard_spellings, C10_standard_spellings_same_string). Ring/branch suffix 1..3 iff span-1 / length-1 < 16^3; Q symbols decode back. NOT proved: stability under re-encoding - decided per input: re-encoding the decoded SMILES must reproduce the string; every emitted symbol is also judged by the extracted symbol_in_grammar; atom-field extremes (every element, charges to +-100, H0-H9 and two-digit H under big tables, isotopes with leading zeros) and spans at the 16^k boundaries.",
    technique="Coq proof (invariants of the SMILES reader, kekulize and the encoder walk; printer/grammar round trip of atom symbols; finite sweeps of index/branch/ring symbols against the generated tables) + extracted hypothesis evaluation per input + metamorphic oracles on the implementation + exact correspondence",
    design_ref="5/C10")
 CLAIMED['C17'] = dict(
    category='proof',
-   text="Kernel-checked for the decoder, ALL strings / tables / flags, no side condition (props/C17.v, proofs/AttrFacts.v): decoder(x, attribute=False) equals decoder(x, attribute=True) with the attribution erased - same outcome (value or exception class), same string, same output indices and tokens (simulation between the two runs through derivation, ring pass and writer); and the decoder's entries are TRUTHFUL (C17_decoder_attribution_truthful; proofs/AttrOut.v, AttrIn.v, AttrFinal.v): every output token is found in the output string ending at the reported character index, every contributing input token is the symbol at the reported position of the input ([nop] and '.' not counted), and every atom entry is attributed to its enclosing branch symbols followed by the atom symbol that created it. The ENCODER's non-interference is a theorem too (C17_encoder_attribute_erased, C17_encoder_same_string; proofs/EncErase.v): for ALL SMILES, tables and strict, encoder(s, attribute=False) is encoder(s, attribute=True) with the attribution erased - same outcome, same string, same indices and tokens (erasure commutes with every operation of the reader, kekulize, strict check, inversion pass and emitting walk). Not a theorem, decided per input on every run: that each SELFIES atom symbol is attributed to the SMILES atom token it was made from, judged with independent tokenisations; attribution lists of both directions are compared entry by entry with the model (multi-fragment, [nop]-padded, truncated indices, many rings).",
+   text="Kernel-checked for the decoder, ALL strings / tables / flags, no side condition (props/C17.v, proofs/AttrFacts.v): decoder(x, attribute=False) equals decoder(x, attribute=True) with the attribution erased - same outcome (value or exception class), same string, same output indices and tokens (simulation between the two runs through derivation, ring pass and writer); and the decoder's entries are TRUTHFUL (C17_decoder_attribution_truthful; proofs/AttrOut.v, AttrIn.v, AttrFinal.v): every output token is found in the output string ending at the reported character index, every contributing input token is the symbol at the reported position of the input ([nop] and '.' not counted), and every atom entry is attributed to its enclosing branch symbols followed by the atom symbol that created it. The ENCODER's non-interference is a theorem too (C17_encoder_attribute_erased, C17_encoder_same_string; proofs/EncErase.v): for ALL SMILES, tables and strict, encoder(s, attribute=False) is encoder(s, attribute=True) with the attribution erased - same outcome, same string, same indices and tokens (erasure commutes with every operation of the reader, kekulize, strict check, inversion pass and emitting walk). The encoder's TRUTHFULNESS is a theorem as well (C17_encoder_attribution_truthful; proofs/EncAttr.v): the reader stores with the k-th atom the (position, text) of the k-th atom token of the input from whose text it was read, kekulize and the inversion pass keep that pair, and in the emitting walk every atom symbol is printed from one atom of the graph and carries exactly its pair. So all four clauses of the property are kernel-checked for the model; on every run they are also judged on the implementation with independent tokenisations (incl. that a listed branch symbol really spans the atom symbol, by the documented index code); attribution lists of both directions are compared entry by entry with the model (multi-fragment, [nop]-padded, truncated indices, many rings).",
    technique="Coq proof (simulation: erasing attribution commutes with every decoder step; invariants for the truthfulness of every stored attribution through derivation, ring pass and writer) + exact correspondence of attribution lists with the model + independent-tokenisation oracle",
    design_ref="5/C17")
 CLAIMED['C19'] = dict(
